@@ -53,6 +53,18 @@ CLAIMS["C02"] = {
     "design_ref": "DESIGN.md section 4, C02",
     "note": "Trusted: Lean kernel + standard axioms; torch.argmin returns the first minimum; 'nearest' is a theorem for the ML model only - the syndrome-table / Hamming / RM-inverse models are executable definitions compared with the code; BM and Reed decoders are partial (test only).",
 }
+CLAIMS["C05"] = {
+    "technique": "Lean 4 theorems on table-driven modem models (first-arg-min scan returns a minimiser; decision at a constellation point is that point when points are distinct; bit-group <-> label bijection; splitting into groups) instantiated on the kernel-checked tables of C14; index-level models of the schemes with memory; correspondence with real modulator -> demodulator round trips",
+    "text": "Unbounded theorem memoryless_roundtrip: for ANY table with bijective labels and pairwise distinct points and ANY number of symbols, demodulating the noiselessly modulated symbols returns exactly the input bits, #symbols = #bits/b, and lengths that are not multiples are rejected; instantiated for every catalogue table through C14's kernel-checked obligations. Schemes with memory: the decision at table entry i returns the label of entry i (index_symbol_decision), so index-mapped schemes (DPSK, pi/4-QPSK) round-trip exactly when the table is binary-labelled - proved for all binary-labelled catalogue tables (K) - and the Gray DPSK / pi/4-QPSK tables are kernel-checked NOT to be (listed known findings, test-pinned); OQPSK: in-phase bit in place, quadrature bit delayed by one symbol, first quadrature decision = reset value (oqpsk_roundtrip, all lengths). Tie: real modulator (reset, eval) -> real demodulator on every b-bit group, every ordered symbol pair for schemes with memory, random long sequences, 1-D and batched, compared with the model's prediction and with the property.",
+    "design_ref": "DESIGN.md section 4, C05",
+    "note": "Trusted: Lean kernel + standard axioms; float32 trigonometry placing noise-free symbols on the intended table entry (validated on every symbol / pair by the correspondence, not proved); DPSK is modelled on its decision variable.",
+}
+CLAIMS["C06"] = {
+    "technique": "Lean 4 theorems over integer-scaled points and rational variances: the arg-min scan returns a global minimiser for every received point; sign and 1/variance scaling of the max-log LLR for every table; BPSK closed form; correspondence on exact dyadic received points",
+    "text": "Unbounded theorems, for every finite table, every received point and all positive rational constants: the hard decision is the index of a point at minimum Euclidean distance; the max-log LLR c*(min_{b=1} d^2 - min_{b=0} d^2)/(s^2 sigma^2) is >= 0 when the nearest point's label bit is 0 and <= 0 when it is 1; multiplying the variance by a>0 divides the LLR by a; for two antipodal points the formula is 2y/sigma^2. Tie: every catalogue demodulator (BPSK, QPSK, PSK, QAM, PAM, OQPSK, pi/4-QPSK tables, DPSK on its decision variable) is run on grid / boundary / random received points that are exact multiples of 1/64 of the table scale; hard outputs must equal the model's decision (margin rule 1e-4), soft outputs must equal the model's rational LLR with the scheme's constant c within a float32 tolerance, for noise variances 1e-3..1e2, scalar and per-symbol.",
+    "design_ref": "DESIGN.md section 4, C06",
+    "note": "Trusted: Lean kernel + standard axioms; float32 arithmetic within the stated tolerance; DPSK soft output normalises the decision variable (a square root) and is compared with a float64 evaluation of the definition instead of the exact model (a test).",
+}
 
 NOT_YET = {}
 
